@@ -97,6 +97,10 @@ class EngineC13(EngineC14):
                 prev_sets.append(want)
                 if len(got_list) != len(got):
                     out.count("duplicate_attribute_in_list")       # the statement speaks of the *set*: recorded, not judged
+                if "meta_again" in p and set(p["meta_again"]) != got:
+                    # reading the attributes is an observation, not an operation: a second read gives the same set
+                    V.append(Violation("C13", "text-model", "second-read-differs", "",
+                                       {"first": sorted(got), "second": sorted(p["meta_again"]), "source": src[:200]}, step))
                 if got != want:
                     d = sorted(["+" + x.replace(P, "") for x in got - want] + ["-" + x.replace(P, "") for x in want - got])
                     V.append(Violation("C13", "text-model", "attrs", ",".join(d),
